@@ -220,8 +220,9 @@ func init() {
 	// sigwatch <evm|sub> <gas> <nonces of the signed batch> <tick vectors '/'-separated | ->
 	//   the REAL watchExecution: the scripted ticks happen first (answers per member position, as in `watch`), and only
 	//   when the script is exhausted does the signature arrive; what is then handed to ExecuteProposals is recorded.
-	//   =>  closed@<t>|-|<inputs>              the session was closed as executed during the script, nothing submitted
-	//       submitted|<nonces>/<gas>;…|<inputs>  inputs = ok iff the caller's proposal slice is unchanged afterwards
+	//   =>  closed@<t>|-|<inputs>|<sweeps>              the session was closed as executed during the script, nothing submitted
+	//       submitted|<nonces>/<gas>;…|<inputs>|<sweeps>  inputs = ok iff the caller's proposal slice is unchanged afterwards
+	//       sweeps = the member positions asked about at each scripted tick
 	ops["C03.sigwatch"] = func(a []string) string {
 		nonces := c3Nonces(a[2])
 		n := len(nonces)
@@ -272,6 +273,7 @@ func init() {
 		defer ch.mu.Unlock()
 		rec.mu.Lock()
 		defer rec.mu.Unlock()
+		inputs += "|" + ch.log()
 		switch {
 		case err != nil:
 			return "err|" + joinOr(rec.submitted, ";") + "|" + inputs
